@@ -1,8 +1,7 @@
 (** C08: the session model against the documented-rules simulator [Spec].
-    What is proved here are the per-step commutation lemmas of the refinement (order execution,
-    the sells-first discipline, the sizing rules); their composition over the whole event loop is
-    exercised by the correspondence runs (implementation vs [Spec.spec_run]) and is NOT a theorem
-    yet - see DESIGN.md. *)
+    First commutation lemmas (order execution, the sells-first discipline, equity, the sizing
+    rules).  The whole-run refinement theorem is built on them in SpecLists / SpecSizing /
+    SpecBroker / SpecRun ([SpecRun.backtest_refines_spec]). *)
 From Coq Require Import ZArith QArith Qround Qabs String Bool List Lia Lqa Permutation.
 From QS Require Import theories.Num theories.Position theories.Portfolio theories.Fees theories.Exchange
   theories.Broker theories.Sizer theories.PCM theories.Backtest theories.Spec
